@@ -143,6 +143,15 @@ def zz_bytes(eng, st, fr, args, ins):
     return eng.new_slice(st, "uint8", bs)
 
 
+@intr(ZZ + "SameCommitment")
+def zz_samecommitment(eng, st, fr, args, ins):
+    a, b = args
+    if all(type(x) is int for x in a) and all(type(x) is int for x in b):
+        return tuple(a) == tuple(b)
+    r = eng.heq(eng.pack(tuple(a)), eng.pack(tuple(b)))
+    return r
+
+
 @intr(ZZ + "Assume")
 def zz_assume(eng, st, fr, args, ins):
     c = args[0]
